@@ -505,10 +505,21 @@ func (p *ClientParser) parseQuery(r *R) (*ClientPacket, error) {
 			}
 		}
 	}
-	if rev < RevSettingsAsStrings {
+	if rev < RevSettingsAsStrings-1 {
 		return nil, fmt.Errorf("revision %d: binary settings format not implemented by the reference", rev)
 	}
-	if pkt.Settings, err = p.parseSettings(r); err != nil {
+	if rev < RevSettingsAsStrings {
+		// the binary settings format; all of it the reference knows is its empty
+		// list, which is the terminator alone. Settings written as strings do
+		// not exist at this revision
+		name, err := r.Str()
+		if err != nil {
+			return nil, err
+		}
+		if name != "" {
+			return nil, fmt.Errorf("revision %d does not define settings serialised as strings, the Query packet carries one named %q", rev, name)
+		}
+	} else if pkt.Settings, err = p.parseSettings(r); err != nil {
 		return nil, err
 	}
 	if rev >= RevInterServerSecret {
